@@ -1,4 +1,5 @@
 import NunVerif.Props.C20
+import NunVerif.Gen.Trailers
 /-!
 # The socket front ends: one request at a time, in order, one trailer each
 
@@ -68,5 +69,27 @@ theorem tcpLine_state (n : Node) (sid : Sid) (line : Bytes) : (n.tcpLine sid lin
   generalize n.exec sid (line ++ [10]) = r
   obtain ⟨n1, r1, e1⟩ := r
   rfl
+
+
+/-! ### the trailer function against the arms of the source -/
+
+/-- the trailer table `transportTrailer` stands for: which Response variants each front end answers with an
+`error` line, everything else with `ok` -/
+def modelTrailerTable : List (List Nat × List Nat × List Nat) :=
+  [(b!"tcp", b!"Error", b!"error {} \n"), (b!"tcp", b!"_", b!"ok \n"),
+   (b!"ws", b!"Error", b!"error {} \n"), (b!"ws", b!"VersionError", b!"error {} \n"), (b!"ws", b!"_", b!"ok \n")]
+
+/-- the arms of the two socket loops, regenerated from tcp_ops.rs / ws_ops.rs on every run, are the table the model assumes -/
+theorem C20_trailer_arms_of_the_source : Gen.trailerTable = modelTrailerTable := by decide +kernel
+
+/-- … and `transportTrailer` is that table: an `error <msg> ` line for the variants it lists, `ok ` otherwise -/
+theorem transportTrailer_is_the_table (msg key : Bytes) (o v : Int) (k2 v2 : Bytes) (ver : Int) :
+    transportTrailer false (.error msg) = b!"error " ++ msg ++ b!" \n" ∧
+    transportTrailer true (.error msg) = b!"error " ++ msg ++ b!" \n" ∧
+    transportTrailer true (.versionError msg key o v) = b!"error " ++ msg ++ b!" \n" ∧
+    transportTrailer false (.versionError msg key o v) = b!"ok \n" ∧
+    transportTrailer false .ok = b!"ok \n" ∧ transportTrailer true .ok = b!"ok \n" ∧
+    transportTrailer false (.set k2 v2) = b!"ok \n" ∧ transportTrailer true (.value k2 v2 ver) = b!"ok \n" :=
+  ⟨rfl, rfl, rfl, rfl, rfl, rfl, rfl, rfl⟩
 
 end Nun
